@@ -791,6 +791,14 @@ func (e *Env) callExpr(n *ECall) Val {
 			return Val{S: "KV", T: kvSet(argv(0).T, str(1), str(2))}
 		case "del":
 			return Val{S: "KV", T: kvDel(argv(0).T, str(1))}
+		case "svcid":
+			return intVal(svcID(argv(0)))
+		case "branch":
+			c := argv(0)
+			if c.S == "View" {
+				return intVal("(v_br " + c.T + ")")
+			}
+			return intVal("(c_br " + c.T + ")")
 		case "viewBranch":
 			return intVal("(v_br " + argv(0).T + ")")
 		case "viewSvc":
